@@ -244,6 +244,13 @@ static int recv_events(m_ctx_t *c, int timeout) {
              * invalidates our pointer.
              */
             m_mod_t *mod = p->mod;
+            if (!m_mod_is(mod, M_MOD_RUNNING)) {
+                /*
+                 * Module was paused by a previous callback of this same batch:
+                 * its sources are no more polled, leave the event where it is.
+                 */
+                continue;
+            }
             evt_priv_t *evt = new_evt(p);
             m_evt_t *msg = NULL;
             if (evt) {
